@@ -216,7 +216,13 @@ func (c CodecJSON) ReadNext(b []byte, r io.Reader, limit int) ([]byte, int, erro
 			}
 			n, err := r.Read(b[len(b):cap(b)])
 			b = b[:len(b)+n]
+			if err == io.EOF && i < len(b) {
+				break // the last bytes came together with EOF
+			}
 			if err != nil {
+				if err == io.EOF && braceCount > 0 {
+					err = io.ErrUnexpectedEOF // input ends inside an object
+				}
 				return b, 0, err
 			}
 		}
